@@ -785,3 +785,11 @@ VARIANTS += [
       edits=[(N, MAKE_LINE, '\tvar handed ocispec.Descriptor\n' + MAKE_LINE), (N, '\t\tif _, ok := desc.Annotations[k]; ok {\n', '\t\tif _, ok := handed.Annotations[k]; ok {\n'),
              (N, TAIL, '\thanded = desc\n\tlogger.Debugf("merged into %v", handed.Digest)\n' + TAIL)]),
 ]
+
+VARIANTS += [
+ # the copy stays a variable of its own (a field of it is read afterwards); still taken before the replacement
+ dict(name='result-copy-taken-before-replacement-and-read', file=N, expect='flagged(merge/result)', find=TAIL,
+      replace='\tmerged := desc\n\tdesc.Annotations = annotations\n\tlogger.Debugf("merged metadata into %v", merged.Digest)\n\treturn merged, nil\n}\n'),
+ dict(name='result-in-new-local-and-read', file=N, expect='silent', find=TAIL,
+      replace='\tmerged := desc\n\tmerged.Annotations = annotations\n\tlogger.Debugf("merged metadata into %v", merged.Digest)\n\treturn merged, nil\n}\n'),
+]
